@@ -134,7 +134,7 @@ fn lc_value<S: Scheme>(sess: &Session<S>, terms: &[(S::F, Option<usize>)], z: &S
     acc
 }
 
-fn open_comb<S: Scheme>(sess: &Session<S>, lcs: &[LinearCombination<S::F>], qs: &QuerySet<S::Pt>) -> Out<BatchLCProof<S::F, BatchProof<S>>> {
+pub fn open_comb<S: Scheme>(sess: &Session<S>, lcs: &[LinearCombination<S::F>], qs: &QuerySet<S::Pt>) -> Out<BatchLCProof<S::F, BatchProof<S>>> {
     let ps: Vec<_> = sess.perm_p.iter().map(|i| &sess.polys[*i]).collect();
     let cs: Vec<_> = sess.perm_p.iter().map(|i| &sess.comms[*i]).collect();
     let ss: Vec<_> = sess.perm_p.iter().map(|i| &sess.states[*i]).collect();
@@ -143,7 +143,7 @@ fn open_comb<S: Scheme>(sess: &Session<S>, lcs: &[LinearCombination<S::F>], qs: 
     guard(|| S::PC::open_combinations(&sess.keys.ck, lcs, ps, cs, qs, &mut sp, ss, Some(&mut r)))
 }
 
-fn check_comb<S: Scheme>(
+pub fn check_comb<S: Scheme>(
     sess: &Session<S>,
     lcs: &[LinearCombination<S::F>],
     comms: Vec<&LabeledCommitment<Comm<S>>>,
@@ -525,6 +525,19 @@ fn check_policy<S: Scheme>(sess: &Session<S>, c: &Case, ctx: &mut CaseCtx) -> Re
         let dummy: BatchLCProof<S::F, BatchProof<S>> = BatchLCProof { proof: Vec::<Proof<S>>::new().into(), evals: None };
         let r = check_comb::<S>(sess, &lcs, sess.verifier_comms(), &qs, &evals, &dummy);
         ctx.check(!accepted(&r), sig(P, S::NAME, "check_combinations", "bound_dropping_combination_accepted"), || format!("{name}: {}", r.describe()))?;
+        // The honest proof of the admissible equation [1*p_b] presented for the refused equation
+        // [p_b + c*One] with the value moved by c (true as arithmetic, but an equation the scheme declares
+        // outside its domain: the prover refuses it, so the verifier may not answer it positively).
+        if kind == 3 {
+            let lcs1 = vec![LinearCombination::new("lc0", vec![(one, lab(pb))])];
+            if let Out::Ok(p1) = open_comb::<S>(sess, &lcs1, &qs) {
+                ctx.label("policy:proof_of_[1*p_b]_presented_for_[p_b+c]");
+                let r = check_comb::<S>(sess, &lcs, sess.verifier_comms(), &qs, &evals, &p1);
+                ctx.check(!accepted(&r), sig(P, S::NAME, "check_combinations", "refused_equation_answered_positively"), || {
+                    format!("{name}: open_combinations refuses this equation, yet check_combinations accepted it with the proof of [1*p_b] and the value moved by the constant")
+                })?;
+            }
+        }
         // A real proof for the refused combination: the prover opens it over *unbounded twins* - polynomials
         // without a degree bound whose plain commitment is the group element the verifier holds for the
         // bounded original (Marlin / IPA: the polynomial itself; Sonic: x^(max_degree - d) * p, whose
